@@ -438,7 +438,7 @@ def main():
             exe = build_harness(hz["src"], hz["cfg"], lib, hz.get("flags", ()))
             tag = "%s-%s" % (prop, os.path.basename(exe))
             outfile = os.path.join(WORK, "out-%s.txt" % tag)
-            rc, err = run_harness(exe, stier, seed, outfile, replay=None, timeout=hz.get("timeout", 3600 if stier == "quick" else 14400), env=hz.get("env"))
+            rc, err = run_harness(exe, stier, seed, outfile, replay=None, timeout=hz.get("timeout", 2400 if stier == "quick" else 7200), env=hz.get("env"))
             cases, fails, stats, smp = parse_harness(outfile)
             samples += smp
             for k, v in stats.items():
